@@ -6,6 +6,7 @@ for d in sorted(glob.glob(os.path.join(ROOT, 'seeded', '*')), key=lambda p: (p.s
     m = json.load(open(os.path.join(d, 'meta.json')))
     name = os.path.basename(d)
     det = m.get('detection', {})
+    det = {k: v for k, v in det.items() if isinstance(v, dict)}
     caught = [k for k, v in det.items() if v.get('exit') == 1]
     missed = [k for k, v in det.items() if v.get('exit') != 1]
     first = next((v.get('first_violated_obligation', '') for v in det.values() if v.get('exit') == 1), '')
